@@ -108,8 +108,11 @@ class Tmatrix(ScatteringTheory):
         eps = rxy/rz
         NP = -1 - int(iscyl)
         ndgs = 5
-        alpha = scatterer.rotation[2] * 180 / np.pi
-        beta = scatterer.rotation[1] * 180 / np.pi
+        # the Fortran code needs 0 <= alpha <= 360, 0 <= beta <= 180 degrees
+        alpha = (scatterer.rotation[2] * 180 / np.pi) % 360
+        beta = (scatterer.rotation[1] * 180 / np.pi) % 360
+        if beta > 180:
+            alpha, beta = (alpha + 180) % 360, 360 - beta
 
         # FIXME: Why does the incident polarization have to be set to  (1, 0)?
         thet0 = 0
@@ -127,6 +130,9 @@ class Tmatrix(ScatteringTheory):
         med_wavelen = args[2]
         nang = args[-1]
         s11, s12, s21, s22 = ampld(*args)
+        if np.isnan([s11, s12, s21, s22]).any():
+            # the Fortran code flags a failed calculation with NaNs
+            raise TmatrixFailure()
         for s in [s11, s12, s21, s22]:
             s *= (-2j*np.pi/med_wavelen)
         scat_matr = np.array([[s11, s12], [s21, s22]]).transpose()
